@@ -64,7 +64,6 @@ for _v, _cy in (("py", False), ("cy", True)):
                  ("floor-inverse", "implies(self.attributes['start'] is not None and PStart(self) <= date, "
                                    "PT(self, result) <= date and date < PT(self, result + 1) and result >= 0)")],
         calls={"project_date_to_idx": ("contract", TCY + "::project_date_to_idx")},
-        may_raise=["AttributeError"],
     )
     contract(
         "lemma::project_index_of_time_of_index", variant=_v, props=["C17"],
